@@ -766,3 +766,22 @@ Example C09_backpressure_checkers_nonvacuous :
   option_map snd (w_trace (fun _ _ => false) (w_init (Some 1)) [VRecv; VPublish 2; VRecv])
     = Some [VERecv 1; VEPub 2; VERecv 2].
 Proof. vm_compute. auto. Qed.
+
+(* One ingredient of the (unproved) completeness of the lossy Collection trace checker: with the
+   default ReadRequest at most two internal steps fit between two external actions, from ANY state --
+   so the closure fuel 4 the harness passes is more than enough, for every backlog *)
+From SC Require Import Excess.ClosureFuel.
+Theorem C09_internal_chain_bound : forall l s s' out,
+  forallb is_step l = true -> p_run Some s l = Some (s', out) ->
+  (List.length l + tau_budget s' = tau_budget s)%nat /\ (List.length l <= 2)%nat.
+Proof. exact internal_chain_bound. Qed.
+Print Assumptions C09_internal_chain_bound.
+
+Example C09_internal_chain_bound_nonvacuous :   (* a chain of exactly two internal steps exists *)
+  let a0 := mkChange 0 1 None (Some 1) 0 false false in
+  let a1 := mkChange 1 1 None (Some 2) 0 false false in
+  option_map (fun x => tau_budget (fst x))
+    (p_run Some (p_init 0 0) [Publish (mkPub a0 1); Step 0; Publish (mkPub a1 2)]) = Some 2%nat /\
+  option_map snd (p_run Some (p_init 0 0) [Publish (mkPub a0 1); Step 0; Publish (mkPub a1 2); Step 1; Step 0; PRecv])
+    = Some [a0].
+Proof. vm_compute. auto. Qed.
